@@ -250,6 +250,38 @@ def oracle(ctx, d, shape, hs, rng, exact):
             fu = np.asarray(d.FVFullFaceReconstruction(g)(U))
             if fu.shape != (nf, dim) or any(fu[f, fax[f]] != U[f] for f in range(nf)):
                 return fail("full_keeps_normal", "FVFullFaceReconstruction does not keep the normal component")
+        # 8. call sequences: one operator object applied to several inputs - every returned result stays what it was, equals the
+        #    result of a fresh object, shares no memory with other results or with the inputs, and the inputs are left unchanged
+        Ua = U.copy()
+        Ub = dy(rng, nf) if exact else np.array([rng.uniform(-2, 2) for _ in range(nf)])
+        ops = {
+            "FVFullFaceReconstruction": (lambda: d.FVFullFaceReconstruction(g), lambda op, x: op(x)),
+            "FVDivergence.mat": (lambda: d.FVDivergence(g).mat, lambda op, x: op @ x),
+            "face_to_cell": (lambda: None, lambda op, x: d.face_to_cell(g, x)),
+        }
+        if dim >= 2:
+            ops["FVTangentialFaceReconstruction"] = (lambda: d.FVTangentialFaceReconstruction(g), lambda op, x: op(x, True))
+            ops["FVTangentialFaceReconstruction(list)"] = (lambda: d.FVTangentialFaceReconstruction(g), lambda op, x: np.stack(op(x, False)))
+        for name, (mk, ap) in ops.items():
+            op = mk()
+            xa, xb = Ua.copy(), Ub.copy()
+            ra = ap(op, xa)
+            ra0 = np.array(ra, copy=True)
+            rb = ap(op, xb)
+            rs = ap(op, xa + xb)
+            fresh_b = ap(mk(), Ub.copy())
+            if not np.array_equal(np.asarray(ra), ra0):
+                return fail(f"call-sequence:{name}", f"{name}: the result of the first application changed when the same object was applied to a second input "
+                            f"(results share one output array)", operator=name, flux_b=Ub.tolist())
+            if not np.array_equal(np.asarray(rb), np.asarray(fresh_b)):
+                return fail(f"call-sequence:{name}", f"{name}: second application of one object differs from a fresh object on the same input", operator=name, flux_b=Ub.tolist())
+            if isinstance(ra, np.ndarray) and isinstance(rb, np.ndarray) and ra.size and np.shares_memory(ra, rb):
+                return fail(f"call-sequence:{name}", f"{name}: two results share memory", operator=name)
+            if not (np.array_equal(xa, Ua) and np.array_equal(xb, Ub)):
+                return fail(f"modifies-input:{name}", f"{name} changed its input flux", operator=name)
+            lin_ok = np.array_equal(np.asarray(rs), ra0 + np.asarray(rb)) if exact else bool(np.all(np.abs(np.asarray(rs) - (ra0 + np.asarray(rb))) <= 1e-12 * (np.abs(ra0) + np.abs(np.asarray(rb)) + 1e-300)))
+            if not lin_ok:
+                return fail(f"linearity:{name}", f"{name}: R(a + b) != R(a) + R(b)", operator=name, flux_b=Ub.tolist())
     except Exception as e:  # noqa: BLE001
         return fail("raises", f"{type(e).__name__}: {e}")
     return True
@@ -344,6 +376,22 @@ def run(ctx):
                 continue
             forms += 1
             ctx.count(("vs-form", shape, tag, tuple(hs)))
+            # the grid must not depend on what the caller does with its container afterwards (e.g. `h *= 2` for the next level
+            # of a grid hierarchy): change it in place where possible; everything below still refers to the ORIGINAL sizes
+            try:
+                if isinstance(arg, np.ndarray):
+                    arg *= 2.0
+                elif isinstance(arg, list):
+                    arg[0] = arg[0] * 2.0
+            except Exception:  # noqa: BLE001
+                pass
+            try:
+                vs_now = [float(x) for x in np.asarray(g.voxel_size, dtype=float).ravel()]
+            except Exception:  # noqa: BLE001
+                vs_now = None
+            if vs_now != [float(x) for x in hs]:
+                ctx.fail(f"C06:Grid:voxel_size-follows-caller:{tag}:dim={dim}", f"Grid({shape}, voxel_size=<{tag}> {rp['value']}): after the caller changed its container in place "
+                         f"grid.voxel_size is {vs_now}, the grid was built with {hs}", rp)
             S, H = shape_tok(shape), lst(hs)
             U = dy(rng, int(g.num_faces))
             add(f"divmat {S} {H} 1", lambda: impl_divmat(d, g))
